@@ -13,7 +13,7 @@ HARNESSES.append(
          unwind=4, unwindset=["ref_count.0:50", "ref_count.1:14", "fill_dir_block.0:8", "copy_dir_entries.0:7",
                               "main.0:50", "main.1:10", "main.2:10", "main.3:7", "main.4:7", "ext2fs_read_dir_block4.0:50",
                               "memcpy.0:50", "memset.0:50"],
-         backends=["default", "kissat"],
+         backends=["default", "kissat"], cap_quick=400,
          bound="one directory block of 40 bytes, every byte symbolic; slack percentage 0..100; one symbolic transposition of the entry array"))
 HARNESSES.append(
     dict(name="fill", src="rebuild.c", extra_src=["lib/ext2fs/dir_iterate.c"],
